@@ -1,4 +1,4 @@
-import SgVerif.C10.Kill
+import SgVerif.C10.Inv2
 /-
 C10 — resource failures are reported to every live participant.  Property theorems (nothing else in this file).
 All theorems are over arbitrary states of the transition system of Model.lean (any number of hosts, links, actors,
@@ -356,6 +356,40 @@ theorem no_orphan_block_partial_comm (s : St) (k : Nat) : ((finishComm s k).acts
     | cons x xs ih => intro t h; exact ih _ (step t x h)
   apply fold
   simp [St.setAct]
+
+/-- **no_orphan_block (global invariant, every reachable state).**  For EVERY platform, EVERY sequence of events of the
+transition system (communications, executions, sleeps, waits, wait_any, tests, completions, actor ends, hosts and links
+going off and on, `handle_ended_actions` — well formed or not, any length), the state `s` reached satisfies:
+ * `NoLost s`: every activity whose action is FAILED sits in the failed action set — no failure of an action is ever
+   dropped between the moment it happens (`Action::cancel`, `cancel_actions`, an action created on a resource that is off)
+   and the `finish` of its activity; hence
+ * nobody stays blocked on such an activity: every answerable actor registered on a communication whose action failed (a
+   link of its route went off, or a dying peer / maestro cancelled it), or on an execution whose action failed while one
+   of its hosts is off, is answered by the very next `handle_ended_actions` with the exception of the spec table (or by
+   another activity of its wait_any set finished in that call, or an assertion of the kernel fires).
+What the statement does NOT cover, precisely: activities that lose their completion event without their *action* being
+failed — (i) a detached send in flight whose sender's host fails (nobody cancels it: the receiver is told at the natural
+completion date, see NOTES "late reports"); (ii) a communication cancelled while still unmatched (it has no action: a
+third party that waits on somebody else's unmatched comm is not woken by the owner's death); (iii) an execution whose
+action was cancelled without any host failure (its waiters are answered too, with CancelException: not a failure kind of
+the spec table, so it is outside `Hit`); and the activities of an actor marked dying without `exit()`
+(`killed_on_host_off_exit_counterexample`). -/
+theorem no_orphan_block (hosts : List Nat) (route : Nat → Nat → List Nat) (es : List Ev) :
+    NoLost (run (init hosts route) es) ∧
+    ∀ k a, ((run (init hosts route) es).acts k).action = some .failed → Hit (run (init hosts route) es) k →
+      Answerable (run (init hosts route) es) a → a ∈ ((run (init hosts route) es).acts k).simcalls →
+      DoneR (run (init hosts route) es) (handleEndedAll (run (init hosts route) es)) a k
+        (.exc (specExc ((run (init hosts route) es).acts k).kind)) := by
+  have h := nl_run es _ (nl_init hosts route)
+  exact ⟨h, fun k a hf hit ha hm => handle_ended_reports_every_failed_action _ k a (h k hf) hit ha hm⟩
+
+/-- non-vacuity of `no_orphan_block`: after the link failure the comm's action is FAILED (and queued), the receiver is
+answerable and registered -/
+example :
+    let s := run (init [0, 1] (fun _ _ => [0])) [.isendWait 0 0, .irecvWait 1 0, .linkOff 0]
+    (s.acts 0).action = some .failed ∧ 0 ∈ s.failedQ ∧ Hit s 0 ∧ Answerable s 1 ∧ 1 ∈ (s.acts 0).simcalls := by
+  refine ⟨by decide, by decide, Or.inl ⟨by decide, Or.inr (Or.inr (by decide))⟩, ?_, by decide⟩
+  unfold Answerable; decide
 
 /-! ### the abort: before fix commit fcd7d0e96a CommImpl::start asserted that both endpoint hosts are on
 (with `startAsserts := true` in Model.lean both witnesses below evaluate to `crashed = true`).  They are kept as
